@@ -113,6 +113,13 @@ func init() {
 			{ID: "C09-G3-insert-after-test", File: "core/sigagg/sigagg.go", Expect: "G3",
 				Old: "\t// Aggregate signatures\n", New: "\tblsSigs[parSigs[0].ShareIdx+1] = blsSigs[parSigs[0].ShareIdx]\n\n\t// Aggregate signatures\n"},
 			// G4
+			// G3 every partial of the entry enters the interpolation (round 5)
+			{ID: "C09-G3-stop-at-threshold-after-insert", File: "core/sigagg/sigagg.go", Expect: "G3|holds every partial",
+				Old: "\t\tblsSigs[parSig.ShareIdx] = sig\n", New: "\t\tblsSigs[parSig.ShareIdx] = sig\n\n\t\tif len(blsSigs) >= a.threshold {\n\t\t\tbreak\n\t\t}\n"},
+			{ID: "C09-G3-skip-known-share", File: "core/sigagg/sigagg.go", Expect: "G3|holds every partial",
+				Old: "\t\tsig, err := tblsconv.SigFromCore(parSig.Signature())\n", New: "\t\tif _, dup := blsSigs[parSig.ShareIdx]; dup {\n\t\t\tcontinue\n\t\t}\n\n\t\tsig, err := tblsconv.SigFromCore(parSig.Signature())\n"},
+			{ID: "C09-G3-leave-loop-when-enough", File: "core/sigagg/sigagg.go", Expect: "G3|holds every partial",
+				Old: "\t\tsig, err := tblsconv.SigFromCore(parSig.Signature())\n", New: "\t\tif len(blsSigs) > a.threshold-1 {\n\t\t\tbreak\n\t\t}\n\n\t\tsig, err := tblsconv.SigFromCore(parSig.Signature())\n"},
 			{ID: "C09-G4-verifier-returns-stub", File: "core/sigagg/sigagg.go", Expect: "G4",
 				Old:  "\treturn func(ctx context.Context, pubkey core.PubKey, data core.SignedData) error {\n",
 				New:  "\tverify := func(ctx context.Context, pubkey core.PubKey, data core.SignedData) error {\n",
@@ -166,6 +173,17 @@ func init() {
 			{ID: "C09-G5-two-domains", File: "core/eth2signeddata.go", Expect: "G5",
 				Old: "func (SignedRandao) DomainName() signing.DomainName {\n\treturn signing.DomainRandao\n",
 				New: "func (s SignedRandao) DomainName() signing.DomainName {\n\tif s.SignedEpoch.Epoch == 0 {\n\t\treturn signing.DomainBeaconProposer\n\t}\n\n\treturn signing.DomainRandao\n"},
+			// G5 domain type source (round 5): a built-in name → domain type table must equal the consensus-spec constants
+			{ID: "C09-G5-domain-table-replaces-spec", File: "eth2util/signing/signing.go", Expect: "G5|domain type of DOMAIN_AGGREGATE_AND_PROOF",
+				Old: "\tdomainType, ok := spec[string(name)]\n\tif !ok {\n\t\treturn eth2p0.Domain{}, errors.New(\"domain type not found\")\n\t}\n\n\tdomainTyped, ok := domainType.(eth2p0.DomainType)\n",
+				New: "\t_ = spec\n\n\tdomainTyped, ok := wellKnownDomains[name]\n",
+				More: [][2]string{{"// GetDomain returns the beacon domain for the provided type.\n",
+					"var wellKnownDomains = map[DomainName]eth2p0.DomainType{\n\tDomainBeaconProposer:    {0x00, 0x00, 0x00, 0x00},\n\tDomainBeaconAttester:    {0x01, 0x00, 0x00, 0x00},\n\tDomainRandao:            {0x02, 0x00, 0x00, 0x00},\n\tDomainSelectionProof:    {0x05, 0x00, 0x00, 0x00},\n\tDomainAggregateAndProof: {0x05, 0x00, 0x00, 0x00},\n}\n\n// GetDomain returns the beacon domain for the provided type.\n"}}},
+			{ID: "C09-G5-domain-table-overrides-spec", File: "eth2util/signing/signing.go", Expect: "G5|domain type of DOMAIN_VOLUNTARY_EXIT",
+				Old: "\t\treturn eth2p0.Domain{}, errors.New(\"invalid domain type\")\n\t}\n",
+				New: "\t\treturn eth2p0.Domain{}, errors.New(\"invalid domain type\")\n\t}\n\n\tif fixed, found := fixedDomainTypes[name]; found {\n\t\tdomainTyped = fixed\n\t}\n",
+				More: [][2]string{{"// GetDomain returns the beacon domain for the provided type.\n",
+					"var fixedDomainTypes = map[DomainName]eth2p0.DomainType{\n\t\"DOMAIN_VOLUNTARY_EXIT\": {3: 0x04},\n\t\"DOMAIN_DEPOSIT\":        {0x03, 0x00, 0x00, 0x00},\n}\n\n// GetDomain returns the beacon domain for the provided type.\n"}}},
 			// G6
 			{ID: "C09-G6-stub-verifier", File: "app/app.go", Expect: "G6",
 				Old: "sigagg.New(lock.Threshold, sigagg.NewVerifier(eth2Cl))",
@@ -522,9 +540,9 @@ func c09HasField(c *rt.Ctx, pkgRel, typ, field string) {
 func c09(c *rt.Ctx) {
 	c.Rule("G1", 1, func() { c09G1(c) })
 	c.Rule("G2", 3, func() { c09G2(c) })
-	c.Rule("G3", 4, func() { c09G3(c) })
+	c.Rule("G3", 5, func() { c09G3(c) })
 	c.Rule("G4", 28, func() { c09G4(c) })
-	c.Rule("G5", 22, func() { c09G5(c) })
+	c.Rule("G5", 23, func() { c09G5(c) })
 	c.Rule("G6", 2, func() { c09G6(c) })
 }
 
@@ -629,6 +647,7 @@ func c09G5(c *rt.Ctx) {
 			c.Check(construct, m.Pos(), okv, fmt.Sprintf("returns %q (%s), the reference table says signing.%s", got, strings.Join(byVal[got], "/"), want))
 		}
 	}
+	c09G5DomainTypeSource(c)
 }
 
 // G6: wiring.
